@@ -25,6 +25,10 @@ let () =
       hex_of_chunks outs ^ (match e with
           | EndEof _ -> ":eof" | EndErr c -> ":err:" ^ string_of_int (int_of_n c) | EndFuel -> ":fuel")
     | _ -> "?args");
+  register "er_run_empty" (function [cs; sizes; dflt] ->
+      let cs = chunks_of cs in
+      hex_of_chunks (er_run_passthru (er_passthru_fuel cs) cs (List.map nat_of_int (ints_of sizes)) (nat_of_int (int_of_string dflt))) ^ ":eof"
+    | _ -> "?args");
   register "ew_write" (function [t; cs] -> hex_of_chunks (ew_write (table_of t) (chunks_of cs)) | _ -> "?args");
   register "builtin_table" (function [a] -> codes_str (builtin_table (bool_of a)) | _ -> "?args");
   register "table_of_json" (function [a] ->
